@@ -37,7 +37,7 @@ def alphabet():
 
 
 def floors(tier):
-    return {"injections": 1500, "injections_inside_iteration": 800, "clean_reruns_compared": 1500, "problems": 40, "problems_with_verbose_logging": 10,
+    return {"injections": 1500, "injections_inside_iteration": 800, "clean_reruns_compared": 1500, "problems": 40, "problems_in_32_or_more_dimensions": 5, "problems_with_a_variable_fixed_by_equal_bounds": 5, "problems_with_verbose_logging": 10,
             "injections_in_restarted_runs": 200, "kind:f": 300, "kind:g": 100, "kind:cb": 50, "kind:ufd": 50, "kind:scaler": 20, "kind:ftarget": 20, "kind:gtol": 20,
             "__nontrivial__": 800}
 
@@ -50,15 +50,21 @@ def cases(tier, seed):
     rng = np.random.default_rng(subseed("C20", seed))
     nprob = 64 if tier == "quick" else 2000
     for i in range(nprob):
-        ps = gen.rand_spec(rng, FAMS, nmax=4, nmin=2, boxes=("none", "mixed", "boxed"), starts=("interior", "face"))
+        ps = gen.rand_spec(rng, FAMS, nmax=4, nmin=2, boxes=("none", "mixed", "boxed", "boxed_degenerate"), starts=("interior", "face"))
         yield {"problem": ps, "mode": gen.pick(rng, ["callable", "callable", None, "2-point"]), "maxcor": int(rng.integers(1, 5)),
                "maxiter": int(rng.integers(2, 6)), "rot": int(rng.integers(0, 11)),
                "iprint": int(gen.pick(rng, [0, 1, 99, 100, 101])) if i % 3 == 1 else None, "maxls": int(gen.pick(rng, [2, 3, 5, 5])), "fd_arrays": bool(i % 2 == 0)}
+    for i in range(8 if tier == "quick" else 200):
+        # scale: 32 to 48 variables (finite-difference sweeps of that many stencil points), memory above 10; one call index in `stride`
+        # of the objective is injected, every call of the other callables
+        ps = gen.rand_spec(rng, FAMS, nmax=48, nmin=32, boxes=("none", "mixed", "boxed", "boxed_degenerate"), starts=("interior", "face"))
+        yield {"problem": ps, "mode": gen.pick(rng, [None, "2-point", "callable"]), "maxcor": int(rng.integers(11, 21)), "maxiter": int(rng.integers(2, 5)),
+               "rot": int(rng.integers(0, 11)), "iprint": None, "maxls": int(gen.pick(rng, [2, 3, 5])), "fd_arrays": False, "stride": 9, "maxfun": int(gen.pick(rng, [150, 400, 10000]))}
 
 
 def make_cfg(spec):
     cfg = dict(jac=spec["mode"], maxcor=spec["maxcor"], maxiter=spec["maxiter"], maxls=int(spec.get("maxls", 5)), ftol=0.0, gtol=1e-10, gtol_callable=True,
-               ftarget=-1e300, ftarget_callable=True, cb="never", ufd="identity", scaler=2.0, maxfun=10000)
+               ftarget=-1e300, ftarget_callable=True, cb="never", ufd="identity", scaler=2.0, maxfun=int(spec.get("maxfun", 10000)))
     if spec.get("fd_arrays") and spec["mode"] != "callable":
         cfg.update(fd_steps_as_strided_arrays=True, eps=1e-7, finite_diff_rel_step=1e-6 if spec["mode"] is not None else None)
     if spec.get("iprint") is not None:
@@ -112,8 +118,13 @@ def run(spec):
     types = alphabet()
     keys = set()
     pos = spec["rot"]
+    stride = int(spec.get("stride", 1))
+    if P.n >= 32:
+        out.count("problems_in_32_or_more_dimensions")
+    if np.any(P.lb == P.ub):
+        out.count("problems_with_a_variable_fixed_by_equal_bounds")
     for kind in KINDS:
-        for index in range(counts[kind]):
+        for index in range(0, counts[kind], stride if kind == "f" else 1):
             etype = types[pos % len(types)]
             pos += 1
             exc = etype(f"injected into {kind} call #{index}")
@@ -150,7 +161,7 @@ def run(spec):
             rcounts = {"f": rb.nf, "g": rb.ng, "cb": len(rb.cb), "ufd": len(rb.ufd), "scaler": len(rb.scaler_calls),
                        "ftarget": rb.ftarget_calls, "gtol": rb.gtol_calls}
             for kind in KINDS:
-                for index in range(rcounts[kind]):
+                for index in range(0, rcounts[kind], stride if kind == "f" else 1):
                     etype = types[pos % len(types)]
                     pos += 1
                     exc = etype(f"injected into {kind} call #{index} of the restarted run")
